@@ -23,6 +23,7 @@ Definition g_ex (op : sop) (r : sres) : list N :=
   match op, r with SLogIn u true, SOk => [fst u] | _, _ => [] end.
 
 Definition is_destroy (op : sop) : bool := match op with SDestroy => true | _ => false end.
+Definition is_panic (r : sres) : bool := match r with SPanic _ => true | _ => false end.
 
 Lemma g_script_cons d op ops r rs ex : nogetdel op = true ->
   g_script d (op :: ops) (r :: rs) ex =
@@ -307,37 +308,39 @@ Proof.
       assert (Hck1 : apply_cookies (CKey id) c1 = CKey id1).
       { destruct Hck as [[-> ->]|[-> ->]]; reflexivity. }
       assert (Hstop : match op, r1 with SDestroy, _ => true | _, SPanic _ => true | _, _ => false end
-                      = match r1 with SPanic _ => true | _ => false end).
+                      = is_panic r1).
       { destruct op; try reflexivity. discriminate Edes. }
-      rewrite Hstop. rewrite (g_script_cons d op t r1 _ [] Hop), Edes.
-      destruct r1 as [|v|e|e].
-      1-3: destruct (run_script (fire_due s1) o hc t) as [[s3 rs3] c3] eqn:Hr;
-           intros [= <- <- <-];
-           destruct (IH _ o id1 _ hc s3 rs3 c3 HI2 HG2 HD2 Hops Hr)
-             as (HI3 & HG3 & Hc3 & Hu3 & fin & U & Hgs & Hv3 & Hp3 & Hfin);
-           (split; [exact HI3|]); (split; [exact HG3|]); (split; [congruence|]); (split; [lia|]);
-           rewrite g_script_acc, Hgs; cbn [fst snd];
-           exists fin, (U ++ g_ex op _); (split; [reflexivity|]); (split; [|split]).
-      all: try (intros k H1 H2;
-                assert (Hk1 : k <> id1) by (destruct Hid1 as [->|Hn]; [exact H1 | intros ->; apply Hn; exact H2]);
-                assert (Hk2 : key_drawn (fire_due s1) k) by (apply (key_drawn_mono s); [lia | exact H2]);
-                destruct (Hv3 k Hk1 Hk2) as [H|H]; [left; exact H|];
-                destruct (Hv12 k H1 H2) as [H'|H'];
-                [left; rewrite H, H'; apply dropl_none | right; rewrite H, H', dropl_app; reflexivity]).
-      all: try (intros dd k H; destruct (Hp3 dd k H) as [H'|[H'|H']];
-                [destruct (Hp12 dd k H'); auto
-                | subst k; destruct Hid1 as [->|Hn]; auto
-                | right; right; intro Hx; apply H'; apply (key_drawn_mono s); [lia | exact Hx]]).
-      all: try (destruct fin as [d'|];
-                [destruct Hfin as (id' & A & B & C); exists id'; split; [exact A|]; split;
-                 [rewrite apply_cookies_app, Hck1; exact B|];
-                 destruct C as [->|C]; [exact Hid1 | right; intro Hx; apply C; apply (key_drawn_mono s); [lia | exact Hx]]
-                | rewrite apply_cookies_app, Hck1; exact Hfin]).
-      (* a panic stops the script *)
-      intros [= <- <- <-]. split; [exact HI2|]. split; [exact HG2|]. split; [congruence|]. split; [lia|].
-      destruct t; cbn [g_script].
-      all: exists (Some (g_op d op (SPanic e))), (g_ex op (SPanic e) ++ []).
-      all: split; [reflexivity|]; rewrite app_nil_r; split; [exact Hv12|]; split;
-           [intros dd k H; destruct (Hp12 dd k H); auto|];
-           exists id1; split; [exact HD2|]; split; [exact Hck1 | exact Hid1].
+      rewrite Hstop. destruct (is_panic r1) eqn:Epan.
+      * (* a panic stops the script *)
+        intros [= <- <- <-]. split; [exact HI2|]. split; [exact HG2|]. split; [congruence|]. split; [lia|].
+        rewrite (g_script_cons d op t r1 [] [] Hop), Edes, app_nil_r.
+        exists (Some (g_op d op r1)), (g_ex op r1).
+        split; [destruct t; reflexivity|]. split; [exact Hv12|]. split.
+        -- intros dd k H. destruct (Hp12 dd k H); auto.
+        -- exists id1. split; [exact HD2|]. split; [exact Hck1 | exact Hid1].
+      * destruct (run_script (fire_due s1) o hc t) as [[s3 rs3] c3] eqn:Hr.
+        intros [= <- <- <-].
+        destruct (IH _ o id1 _ hc s3 rs3 c3 HI2 HG2 HD2 Hops Hr)
+          as (HI3 & HG3 & Hc3 & Hu3 & fin & U & Hgs & Hv3 & Hp3 & Hfin).
+        split; [exact HI3|]. split; [exact HG3|]. split; [congruence|]. split; [lia|].
+        rewrite (g_script_cons d op t r1 rs3 [] Hop), Edes, app_nil_r.
+        rewrite g_script_acc, Hgs. cbn [fst snd].
+        exists fin, (U ++ g_ex op r1). split; [reflexivity|]. split; [|split].
+        -- intros k H1 H2.
+           assert (Hk1 : k <> id1) by (destruct Hid1 as [->|Hn]; [exact H1 | intros ->; apply Hn; exact H2]).
+           assert (Hk2 : key_drawn (fire_due s1) k) by (apply (key_drawn_mono s); [lia | exact H2]).
+           destruct (Hv3 k Hk1 Hk2) as [H|H]; [left; exact H|].
+           destruct (Hv12 k H1 H2) as [H'|H'].
+           ++ left. rewrite H, H'. apply dropl_none.
+           ++ right. rewrite H, H', dropl_app. reflexivity.
+        -- intros dd k H. destruct (Hp3 dd k H) as [H'|[H'|H']].
+           ++ destruct (Hp12 dd k H'); auto.
+           ++ subst k. destruct Hid1 as [->|Hn]; auto.
+           ++ right. right. intro Hx. apply H'. apply (key_drawn_mono s); [lia | exact Hx].
+        -- destruct fin as [d'|].
+           ++ destruct Hfin as (id' & A & B & C). exists id'. split; [exact A|]. split.
+              ** rewrite apply_cookies_app, Hck1. exact B.
+              ** destruct C as [->|C]; [exact Hid1|]. right. intro Hx. apply C.
+                 apply (key_drawn_mono s); [lia | exact Hx].
+           ++ rewrite apply_cookies_app, Hck1. exact Hfin.
 Qed.
